@@ -131,7 +131,7 @@ func (d XDesc) Coq() string {
 		return fmt.Sprintf("(DForward %d)", d.Up)
 	case "fallback":
 		return fmt.Sprintf("(DFallback %d %d %s)", d.Prim, d.Sec, hx.Bool(d.Standby))
-	case "rendezvous":
+	case "rendezvous", "barrier":
 		return "DRendezvous"
 	}
 	return "DDropResp"
@@ -283,8 +283,9 @@ func buildX(b *Built, d XDesc, rec *Recorder, scripts [][]Template) (any, error)
 		}
 		return fastforward.VerifNewForward(1, []fastforward.VerifUpstream{{Tag: "u", U: up}}), nil
 	}
-	if d.Kind == "rendezvous" {
+	if d.Kind == "rendezvous" || d.Kind == "barrier" {
 		b.Meet = NewRendezvous()
+		b.Meet.All = d.Kind == "barrier"
 		return b.Meet, nil
 	}
 	return &drop_resp.DropResp{}, nil
